@@ -79,7 +79,7 @@ def gen_program(rng, profile, index=None):
         if target == 'running' and rng.random() < 0.3:
             fn = 'run_aw_threadsafe'
         callers.append({'fn': fn, 'kind': _w(rng, [('coro', 5), ('future', 2), ('task', 2)]),
-                        'out': _w(rng, [('return', 7), ('raise', 3), ('raise_base', 1)]),
+                        'out': _w(rng, [('return', 7), ('raise', 3), ('raise_base', 1), ('raise_cancelled', 1)]),
                         'delay': _w(rng, [(0.0, 4), (Q, 3), (4 * Q, 2), (1.0, 1)]),
                         'start': _w(rng, [(0.0, 6), (Q, 2), (4 * Q, 1)])})
     prog = {'world': 'cross', 'target': target, 'callers': callers}
@@ -89,7 +89,7 @@ def gen_program(rng, profile, index=None):
         c2 = []
         for _ in range(_w(rng, [(1, 3), (2, 3)])):
             c2.append({'fn': 'ensure_aw', 'kind': _w(rng, [('coro', 5), ('future', 2), ('task', 2)]),
-                       'out': _w(rng, [('return', 7), ('raise', 3), ('raise_base', 1)]),
+                       'out': _w(rng, [('return', 7), ('raise', 3), ('raise_base', 1), ('raise_cancelled', 1)]),
                        'delay': _w(rng, [(0.0, 4), (Q, 3), (4 * Q, 2)]), 'start': _w(rng, [(0.0, 6), (Q, 2)])})
         prog['phase2'] = {'target': t2, 'callers': c2}
     return prog
@@ -148,6 +148,9 @@ class CrossWorld:
         if C.spec['out'] in ('raise', 'raise_base'):
             C.exc = (AwBaseError if C.spec['out'] == 'raise_base' else AwError)(C.i)
             raise C.exc
+        if C.spec['out'] == 'raise_cancelled':
+            C.exc = asyncio.CancelledError(C.i)
+            raise C.exc
         C.obj = ('res', C.i)
         return C.obj
 
@@ -156,7 +159,10 @@ class CrossWorld:
         C.ran_on = fut.get_loop()
         if fut.done():
             return
-        if C.spec['out'] in ('raise', 'raise_base'):
+        if C.spec['out'] == 'raise_cancelled':
+            C.exc = asyncio.CancelledError(C.i)
+            fut.cancel()
+        elif C.spec['out'] in ('raise', 'raise_base'):
             C.exc = (AwBaseError if C.spec['out'] == 'raise_base' else AwError)(C.i)
             fut.set_exception(C.exc)
         else:
@@ -296,6 +302,11 @@ class CrossWorld:
                 if not (o[0] == 'value' and o[1] is C.obj and C.obj is not None):
                     self.viol('ensure_aw.wrong_result', "caller did not get the awaitable's result",
                               f'caller {C.i} ({C.spec["fn"]} {C.spec["kind"]}) expected {C.obj!r}, got {o[0]} {o[1]!r}', target=tstate)
+            elif C.spec['out'] == 'raise_cancelled':
+                # asyncio re-creates CancelledError objects when it copies future state: the type is what is promised
+                if not (o[0] == 'exc' and isinstance(o[1], asyncio.CancelledError)):
+                    self.viol('ensure_aw.wrong_result', "caller did not get the awaitable's CancelledError",
+                              f'caller {C.i} ({C.spec["fn"]} {C.spec["kind"]}) got {o[0]} {o[1]!r}', target=tstate)
             else:
                 if not (o[0] == 'exc' and o[1] is C.exc and C.exc is not None):
                     self.viol('ensure_aw.wrong_result', "caller did not get the awaitable's exception",
